@@ -142,13 +142,19 @@ func vfC05Run(cs vfC05Case, res *vfC05Stats) string {
 			if m := check(i, "before the drag"); m != "" {
 				return m
 			}
+			before := sess.shellIn.len()
 			sess.typeInput(a.Chunks[0])
 			time.Sleep(20 * time.Millisecond)
 			sess.typeInput(a.Chunks[1])
 			res.chunks++
 			time.Sleep(600 * time.Millisecond) // past the point at which the upload would have been started
+			// only what arrived since this step counts (an earlier step may have typed the very same bytes), and the key is waited for
+			keyBy := time.Now().Add(5 * time.Second)
+			for !bytes.HasSuffix(sess.shellIn.bytes()[before:], a.Chunks[1]) && time.Now().Before(keyBy) {
+				time.Sleep(2 * time.Millisecond)
+			}
 			// a reader that got round to it late saw both chunks as one read, which is no drag at all: then everything goes through
-			if both := append(append([]byte(nil), a.Chunks[0]...), a.Chunks[1]...); bytes.HasSuffix(sess.shellIn.bytes()[shellBase:], both) {
+			if both := append(append([]byte(nil), a.Chunks[0]...), a.Chunks[1]...); bytes.Equal(sess.shellIn.bytes()[before:], both) {
 				wantShell = append(wantShell, both...)
 			} else {
 				wantShell = append(wantShell, a.Chunks[1]...)
